@@ -27,6 +27,15 @@ def vectors(flags, rng, n_random, full=False):
     for f in flags:
         vs.append({g: (g == f) for g in flags})
         vs.append({g: (g != f) for g in flags})
+    if "optimize_with_safe_paths" in flags and "optimize_with_safe_sequences" in flags:
+        # all-on is a documented incompatible combination for the DAG models (safe paths AND safe sequences): the two
+        # coherent "everything on" vectors, with greedy off so that the model itself has to answer
+        for keep, drop in (("optimize_with_safe_sequences", "optimize_with_safe_paths"), ("optimize_with_safe_paths", "optimize_with_safe_sequences")):
+            v = {f: True for f in flags}
+            v[drop] = False
+            if "optimize_with_greedy" in v:
+                v["optimize_with_greedy"] = False
+            vs.append(v)
     for _ in range(n_random):
         vs.append({f: rng.random() < 0.5 for f in flags})
     seen, out = set(), []
@@ -79,6 +88,11 @@ def instances(tier, rng):
                         ce = C.route_edges(rng.choice(cr))
                         variants.append({"cons": [[ce[0], ce[-1]]], "cov": rng.choice([[3, 4], [2, 3]])})
                         variants.append({"cons": [ce], "cov": rng.choice([[3, 4], [1, 2], [2, 3]])})
+                        # length coverage below 1 (with safety lists as subpath constraints among the flags): a relaxed
+                        # constraint must not be treated as fully covered
+                        pe = C.route_edges(rng.choice(u["proutes"]))
+                        variants.append({"cons": [rng.choice([ce, pe[:2], [ce[0], ce[-1]]])], "covlen": rng.choice([[3, 5], [1, 2], [7, 10]]),
+                                         "elen": [rng.choice([1, 2, 4, 6]) for _ in u["edges"]]})
                 if not quick or (cls in C.MINCLS and rng.random() < 0.5):
                     variants.append({"mode": "node"})
                 for var in variants:
@@ -95,6 +109,35 @@ def instances(tier, rng):
                         r["opt"] = dict(vec)
                         r["grp"] = g
                         insts.append(r)
+    # DAG motifs, a constraint crossing the planted routes whose FIRST edge alone carries the requested length fraction:
+    # baseline against the two coherent "everything on" vectors (safety lists as subpath constraints, constraints as safe
+    # sequences, ...): a relaxed constraint must not be extended into a mandatory one
+    for u in C.motifs()[0]:
+        for p in C.crossing_routes(u)[: (1 if quick else 4)]:
+            ce = C.route_edges(p)
+            for cls in ("kMinPathError", "MinFlowDecomp", "kFlowDecomp"):
+                g += 1
+                flags = flags_of(cls)
+                elen = [6 if list(e) == list(ce[0]) else rng.choice([1, 2, 4]) for e in u["edges"]]
+                vecs = [{f: False for f in flags}]
+                for drop in ("optimize_with_safe_paths", "optimize_with_safe_sequences"):
+                    v = {f: True for f in flags}
+                    v[drop] = False
+                    for off in ("optimize_with_greedy", "optimize_with_flow_safe_paths", "use_min_gen_set_lowerbound", "optimize_with_guessed_weights"):
+                        if off in v:
+                            v[off] = False
+                    vecs.append(v)
+                for vec in vecs:
+                    r = C.base(u, cls)
+                    r["wt"] = "int"
+                    if cls not in C.MINCLS:
+                        r["k"] = max(1, len(u["proutes"]))
+                    r["cons"] = [ce[:2]]
+                    r["covlen"] = [3, 5]
+                    r["elen"] = elen
+                    r["opt"] = dict(vec)
+                    r["grp"] = g
+                    insts.append(r)
     return C.with_ids(insts)
 
 
